@@ -423,6 +423,8 @@ def run(ctx):
     r6_counter_limit(ctx, configs)
     r7_raw_peer_keys(ctx, ossl)
     c13.r10_complete_fill(ctx, ossl, rule_id='C10.R8')
+    from rules import c20
+    c20.r10_round_up(ctx, configs, rule_id='C10.R9')
 
 
 MUTANTS = [
